@@ -155,7 +155,11 @@ pub fn run(ctx: &mut Ctx) {
                     }
                 }
             }
-            for e in [json!({"cat": [{"var": "accumulator"}, "|", {"var": "current"}]}), json!({"merge": [{"var": "accumulator"}, [{"var": "current"}]]}), json!({"var": "current"}), json!({"log": {"var": "current.v"}})] {
+            for e in [
+                json!({"cat": [{"var": "accumulator"}, "|", {"var": "current"}]}), json!({"merge": [{"var": "accumulator"}, [{"var": "current"}]]}), json!({"var": "current"}), json!({"log": {"var": "current.v"}}),
+                json!({"cat": [{"var": "accumulator"}, {"var": "current"}]}), json!({"merge": [{"var": "accumulator"}, {"var": "current"}]}), json!({"cat": [{"var": "current"}, {"var": "accumulator"}]}),
+                json!({"+": [{"var": "accumulator"}, {"var": "current.0"}]}), json!({"max": [{"var": "accumulator"}, {"var": "current.v"}]}),
+            ] {
                 ctx.edge();
                 ctx.check(&format!("reduce:size-probe:{}", ch), &op("reduce", vec![c.clone(), e.clone(), json!("")]), &d);
             }
